@@ -6,7 +6,10 @@ import time
 from common import (WORK, Outcome, ToolError, cached_trace, known_keys, log, ordv, parse_trace_result,
                     read_ndjson, run_tlc, write_evidence)
 
-LEDGER_PROPS = ["C01", "C02", "C03", "C04", "C05", "C06", "C07", "C08", "C09", "C10", "C11",
+C15_FLAGSETS = ["sats,runes,addresses", "runes", "sats,runes", "runes,addresses,transactions", "runes,transactions",
+                "sats", "addresses", "runes,noinscriptions"]
+
+LEDGER_PROPS = ["C15", "C01", "C02", "C03", "C04", "C05", "C06", "C07", "C08", "C09", "C10", "C11",
                 "C16", "C17", "C37"]
 
 # what makes a scenario block non-trivial for a property (counted on the Block events of the run)
@@ -37,16 +40,16 @@ def plan(tier):
             dict(n=30, blocks=40, flags="runes", chain="regtest", update_every=3, family="runes")]
 
 
-def make_trace(seed, tier, events=True, plan_override=None):
+def make_trace(seed, tier, events=True, plan_override=None, name="ledger"):
     """Generate scenarios and run them on the real index; returns (trace path, scenario path)."""
     parts = plan_override or plan(tier)
-    scen_path = os.path.join(WORK, "scen-ledger-%s-%d.ndjson" % (tier, seed))
+    scen_path = os.path.join(WORK, "scen-%s-%s-%d.ndjson" % (name, tier, seed))
     with open(scen_path, "w") as out:
         for i, p in enumerate(parts):
             tmp = scen_path + ".part"
-            ordv(["gen", "--family", p.get("family", "ledger"), "--seed", str(seed * 31 + i), "--n", str(p["n"]),
+            ordv(["gen", "--family", p.get("family", "ledger"), "--seed", str(seed * 31 + p.get("seed_offset", i)), "--n", str(p["n"]),
                   "--blocks", str(p["blocks"]), "--flags", p["flags"], "--chain", p["chain"],
-                  "--update-every", str(p["update_every"]), "--tag", "p%d" % i, "--out", tmp])
+                  "--update-every", str(p["update_every"]), "--tag", p.get("tag", "p%d" % i), "--out", tmp])
             with open(tmp) as f:
                 out.write(f.read())
             os.remove(tmp)
@@ -140,10 +143,25 @@ def coverage_of(prop, trace):
     }
 
 
+def plan_c15(tier):
+    parts = []
+    sets = C15_FLAGSETS if tier == "thorough" else C15_FLAGSETS[:5]
+    for fl in sets:
+        # same seed and tag for every flag set => same scenario names => projections are compared
+        parts.append(dict(n=4 if tier == "quick" else 30, blocks=20 if tier == "quick" else 30, flags=fl, chain="regtest",
+                          update_every=3, tag="f", seed_offset=0))
+        parts.append(dict(n=3 if tier == "quick" else 20, blocks=28, flags=fl, chain="regtest", update_every=4,
+                          tag="g", seed_offset=1, family="runes"))
+    return parts
+
+
 def run(prop, tier, seed):
     t0 = time.time()
     outcome = Outcome(prop)
-    trace, scen = make_trace(seed, tier)
+    if prop == "C15":
+        trace, scen = make_trace(seed, tier, plan_override=plan_c15(tier), name="c15")
+    else:
+        trace, scen = make_trace(seed, tier)
     matched, total, res = validate(prop, trace, scen, outcome)
     cov = coverage_of(prop, trace)
     cov["traces_validated_against_impl"] = cov["scenarios"]
